@@ -574,4 +574,180 @@ theorem mapRemoveItemH_spec (h : Heap) (hw : h.WF) (ents : List Nat) (es : List 
     · intro a ha
       rw [c2.2 a, hgcell a ha]
 
+
+/-! ### cif_value_set_element_at -/
+
+/-- element `i` of a represented element list can be given a new value in place -/
+theorem RepElems_replace (h : Heap) (vs : List V) (xs : List Nat) (F : List Nat) (i : Nat) (hr : RepElems h xs vs F)
+    (hi : i < vs.length) :
+    ∃ t v hvt Ft, xs[i]? = some t ∧ vs[i]? = some v ∧ h.cell t = some (.val hvt) ∧ Rep h hvt v Ft ∧ t ∉ Ft
+      ∧ (∀ a, a ∈ Ft → a ∈ F) ∧ t ∈ F
+      ∧ ∀ h' new v' Ft', h'.cell t = some (.val new) → Rep h' new v' Ft' → t ∉ Ft'
+          → (∀ a, a ∈ F → a ∉ Ft → a ≠ t → h'.cell a = h.cell a) → (∀ a, a ∈ Ft' → a ∈ F → a ∈ Ft)
+          → ∃ F', RepElems h' xs (vs.set i v') F' ∧ ∀ a, a ∈ F' ↔ (a ∈ Ft' ∨ a = t ∨ (a ∈ F ∧ a ∉ Ft ∧ a ≠ t)) := by
+  induction vs generalizing xs F i with
+  | nil => simp at hi
+  | cons v vs ih =>
+    simp only [RepElems] at hr
+    obtain ⟨x0, xs', hv0, F1, F2, rfl, hx0, hrep0, hrest, hx0F, hd0, rfl⟩ := hr
+    cases i with
+    | zero =>
+      refine ⟨x0, v, hv0, F1, by simp, by simp, hx0, hrep0, hx0F, fun a ha => by simp [ha], by simp, ?_⟩
+      intro h' new v' Ft' hc' hrep' htF' hframe hsub
+      refine ⟨Ft' ++ [x0] ++ F2, ?_, ?_⟩
+      · simp only [List.set_cons_zero]
+        rw [RepElems]
+        refine ⟨x0, xs', new, Ft', F2, rfl, hc', hrep', ?_, htF', ?_, rfl⟩
+        · apply RepElems_congr h h' vs xs' F2 _ hrest
+          intro a ha
+          exact hframe a (by simp [ha]) (fun hm => hd0 a (by simp [hm]) ha) (fun e => hd0 a (by simp [e]) ha)
+        · intro a ha hb
+          simp only [List.mem_append, List.mem_singleton] at ha
+          rcases ha with ha | ha
+          · exact hd0 a (by simp [hsub a ha (by simp [hb])]) hb
+          · exact hd0 a (by simp [ha]) hb
+      · intro a
+        simp only [List.mem_append, List.mem_singleton]
+        constructor
+        · rintro ((h1 | h1) | h1)
+          · exact Or.inl h1
+          · exact Or.inr (Or.inl h1)
+          · exact Or.inr (Or.inr ⟨Or.inr h1, fun hm => hd0 a (by simp [hm]) h1, fun e => hd0 a (by simp [e]) h1⟩)
+        · rintro (h1 | h1 | ⟨(h1 | h1) | h1, h2, h3⟩)
+          · exact Or.inl (Or.inl h1)
+          · exact Or.inl (Or.inr h1)
+          · exact absurd h1 h2
+          · exact absurd h1 h3
+          · exact Or.inr h1
+    | succ i =>
+      obtain ⟨t, w, hvt, Ft, hxi, hvi, ht, hrept, htF, hsubF, htmem, hrepl⟩ := ih xs' F2 i hrest (by simpa using hi)
+      have htne : t ≠ x0 := fun e => hd0 t (by simp [e]) htmem
+      refine ⟨t, w, hvt, Ft, by simpa using hxi, by simpa using hvi, ht, hrept, htF,
+        fun a ha => by simp [hsubF a ha], by simp [htmem], ?_⟩
+      intro h' new v' Ft' hc' hrep' htF' hframe hsub
+      obtain ⟨F2', hrep2', hmem2'⟩ := hrepl h' new v' Ft' hc' hrep' htF'
+        (fun a ha h1 h2 => hframe a (by simp [ha]) h1 h2)
+        (fun a ha hb => hsub a ha (by simp [hb]))
+      refine ⟨F1 ++ [x0] ++ F2', ?_, ?_⟩
+      · simp only [List.set_cons_succ]
+        rw [RepElems]
+        refine ⟨x0, xs', hv0, F1, F2', rfl, ?_, ?_, hrep2', hx0F, ?_, rfl⟩
+        · rw [hframe x0 (by simp) (fun hm => hd0 x0 (by simp) (hsubF x0 hm)) (fun e => htne e.symm)]; exact hx0
+        · apply Rep_congr h h' v hv0 F1 _ hrep0
+          intro a ha
+          exact hframe a (by simp [ha]) (fun hm => hd0 a (by simp [ha]) (hsubF a hm))
+            (fun e => hd0 a (by simp [ha]) (e ▸ htmem))
+        · intro a ha hb
+          rcases (hmem2' a).mp hb with h1 | h1 | ⟨h1, _, _⟩
+          · exact hd0 a ha (hsubF a (hsub a h1 (by
+              simp only [List.mem_append, List.mem_singleton] at ha ⊢
+              rcases ha with ha | ha
+              · exact Or.inl (Or.inl ha)
+              · exact Or.inl (Or.inr ha))))
+          · exact hd0 a ha (h1 ▸ htmem)
+          · exact hd0 a ha h1
+      · intro a
+        simp only [List.mem_append, List.mem_singleton, hmem2' a]
+        constructor
+        · rintro ((h1 | h1) | h1 | h1 | ⟨h1, h2, h3⟩)
+          · exact Or.inr (Or.inr ⟨Or.inl (Or.inl h1), fun hm => hd0 a (by simp [h1]) (hsubF a hm),
+              fun e => hd0 a (by simp [h1]) (e ▸ htmem)⟩)
+          · exact Or.inr (Or.inr ⟨Or.inl (Or.inr h1), fun hm => hd0 a (by simp [h1]) (hsubF a hm),
+              fun e => hd0 a (by simp [h1]) (e ▸ htmem)⟩)
+          · exact Or.inl h1
+          · exact Or.inr (Or.inl h1)
+          · exact Or.inr (Or.inr ⟨Or.inr h1, h2, h3⟩)
+        · rintro (h1 | h1 | ⟨(h1 | h1) | h1, h2, h3⟩)
+          · exact Or.inr (Or.inl h1)
+          · exact Or.inr (Or.inr (Or.inl h1))
+          · exact Or.inl (Or.inl h1)
+          · exact Or.inl (Or.inr h1)
+          · exact Or.inr (Or.inr (Or.inr ⟨h1, h2, h3⟩))
+
+theorem need_le_needList (vs : List V) (i : Nat) (v : V) (h : vs[i]? = some v) : need v + 1 ≤ needList vs := by
+  induction vs generalizing i with
+  | nil => simp at h
+  | cons w vs ih =>
+    cases i with
+    | zero => simp at h; subst h; simp [needList]; omega
+    | succ i => have := ih i (by simpa using h); simp [needList]; omega
+
+/-- **`cif_value_set_element_at`** for a new value that is not part of the element replaced: the element object is
+    cleaned and rebuilt in place — the list object, its pointer array and the other elements are untouched, the old
+    components are released, the new ones are fresh. -/
+theorem listSetH_spec (h : Heap) (hw : h.WF) (hv : HVal) (vs : List V) (F : List Nat) (i : Nat) (x : Option V)
+    (hr : Rep h hv (.lst vs) F) (hF : ∀ a, a ∈ F → a < h.next) (hi : i < vs.length) :
+    ∃ h' F', listSetH (need (.lst vs)) h hv i x = some h' ∧ Rep h' hv (.lst (vs.set i (x.getD .unk))) F' ∧ h'.WF
+      ∧ (∀ a, a < h.next → a ∉ F → h'.cell a = h.cell a)
+      ∧ (∀ a, a ∈ F → a ∉ F' → h'.cell a = none)
+      ∧ (∀ a, h.next ≤ a → a < h'.next → a ∈ F') ∧ (∀ a, a ∈ F' → a < h'.next) := by
+  simp only [Rep] at hr
+  rcases hr with ⟨rfl, _, _, _⟩ | ⟨arr, xs, cap, F1, rfl, harr, hcap, hel, hnot, rfl⟩
+  · simp at hi
+  · obtain ⟨t, v, hvt, Ft, hxi, hvi, ht, hrept, htF, hsubF, htmem, hrepl⟩ := RepElems_replace h vs xs F1 i hel hi
+    have hF1lt : ∀ a, a ∈ F1 → a < h.next := fun a ha => hF a (by simp [ha])
+    have hFtlt : ∀ a, a ∈ Ft → a < h.next := fun a ha => hF1lt a (hsubF a ha)
+    have htlt : t < h.next := hF1lt t htmem
+    have harrlt : arr < h.next := hF arr (by simp)
+    have hneed := need_le_needList vs i v hvi
+    obtain ⟨h1, new, h2, Fn, hc, hb, hrepn, hw2, hle, hrange, hcover, hcells⟩ :=
+      cleanBuild_spec h hw hvt v Ft (x.getD .unk) hrept hFtlt (need (.lst vs)) (by simp [need]; omega)
+    have ht2 : h2.cell t = some (.val hvt) := by rw [hcells t htlt]; simp [htF, ht]
+    obtain ⟨h3, hwr, hn3, hc3⟩ := write_spec h2 t _ (.val new) ht2
+    have hrep3 : Rep h3 new (x.getD .unk) Fn := by
+      apply Rep_congr h2 h3 _ new Fn _ hrepn
+      intro a ha
+      have : a ≠ t := by have := (hrange a ha).1; omega
+      rw [hc3]; simp [this]
+    have hcell3 : ∀ a, a < h.next → a ≠ t → h3.cell a = if a ∈ Ft then none else h.cell a := by
+      intro a ha hne
+      rw [hc3]; simp only [hne, if_false]; exact hcells a ha
+    obtain ⟨F1', hrep1', hmem1'⟩ := hrepl h3 new (x.getD .unk) Fn (by simp [hc3]) hrep3
+      (fun hm => by have := (hrange t hm).1; omega)
+      (fun a ha h1' h2' => by rw [hcell3 a (hF1lt a ha) h2', if_neg h1'])
+      (fun a ha hb => by have := (hrange a ha).1; have := hF1lt a hb; omega)
+    have harrne : arr ≠ t := fun e => hnot (e ▸ htmem)
+    have harrFt : arr ∉ Ft := fun hm => hnot (hsubF arr hm)
+    have harr3 : h3.cell arr = some (.arr xs cap) := by rw [hcell3 arr harrlt harrne, if_neg harrFt]; exact harr
+    have hlen : (vs.set i (x.getD .unk)).length = vs.length := by simp
+    refine ⟨h3, F1' ++ [arr], ?_, ?_, ?_, ?_, ?_, ?_, ?_⟩
+    · simp [listSetH, read, harr, hxi, ht, hc, hb, hwr]
+    · simp only [Rep]
+      refine Or.inr ⟨arr, xs, cap, F1', rfl, harr3, hcap, hrep1', ?_, rfl⟩
+      intro hm
+      rcases (hmem1' arr).mp hm with h1' | h1' | ⟨h1', _, _⟩
+      · have := (hrange arr h1').1; omega
+      · exact harrne h1'
+      · exact hnot h1'
+    · intro a ha; rw [hn3] at ha; rw [hc3]
+      have : a ≠ t := by omega
+      simp [this, hw2 a ha]
+    · intro a ha hna
+      have hne : a ≠ t := fun e => hna (by simp [e, htmem])
+      have hnFt : a ∉ Ft := fun hm => hna (by simp [hsubF a hm])
+      rw [hcell3 a ha hne, if_neg hnFt]
+    · intro a ha hna
+      simp only [List.mem_append, List.mem_singleton] at ha hna
+      have hnarr : a ≠ arr := fun e => hna (Or.inr e)
+      have haF1 : a ∈ F1 := by rcases ha with ha | ha; exact ha; exact absurd ha hnarr
+      have hnt : a ≠ t := fun e => hna (Or.inl ((hmem1' a).mpr (Or.inr (Or.inl e))))
+      have haFt : a ∈ Ft := by
+        by_cases hm : a ∈ Ft
+        · exact hm
+        · exact absurd (Or.inl ((hmem1' a).mpr (Or.inr (Or.inr ⟨haF1, hm, hnt⟩)))) hna
+      rw [hcell3 a (hF1lt a haF1) hnt, if_pos haFt]
+    · intro a h1' h2'
+      rw [hn3] at h2'
+      simp only [List.mem_append, List.mem_singleton]
+      exact Or.inl ((hmem1' a).mpr (Or.inl (hcover a h1' h2')))
+    · intro a ha
+      rw [hn3]
+      simp only [List.mem_append, List.mem_singleton] at ha
+      rcases ha with ha | ha
+      · rcases (hmem1' a).mp ha with hh | hh | ⟨hh, _, _⟩
+        · exact (hrange a hh).2
+        · omega
+        · have := hF1lt a hh; omega
+      · omega
+
 end CifModel.Model.Heap
